@@ -360,7 +360,17 @@ def main():
     os.makedirs(os.path.join(ROOT, "evidence"), exist_ok=True)
     os.makedirs(os.path.join(ROOT, "replay"), exist_ok=True)
     # drop the leftovers of earlier failed runs of this property (their logs were kept for inspection)
-    for old in sorted(glob.glob(os.path.join(ROOT, "build", "run-%s-*" % prop)), key=os.path.getmtime)[:-2]:
+    # (never the directory of a run that is still alive: checks may run concurrently)
+    def _dead(d):
+        try:
+            os.kill(int(d.rsplit("-", 1)[1]), 0)
+            return False
+        except (ValueError, ProcessLookupError):
+            return True
+        except PermissionError:
+            return False
+    olds = [d for d in glob.glob(os.path.join(ROOT, "build", "run-%s-*" % prop)) if _dead(d)]
+    for old in sorted(olds, key=os.path.getmtime)[:-2]:
         shutil.rmtree(old, ignore_errors=True)
     rundir = os.path.join(ROOT, "build", "run-%s-%d" % (prop, os.getpid()))
     shutil.rmtree(rundir, ignore_errors=True)
@@ -539,7 +549,10 @@ def main():
     ev = {"property_id": prop, "tier": tier, "seed": a.seed, "level": spec["level"], "coverage": cov,
           "assumptions": spec.get("assumptions", []), "wall_s": round(wall, 2), "violations": new_v}
     if not a.replay:
-        json.dump(ev, open(os.path.join(ROOT, "evidence", prop + ".json"), "w"), indent=1, default=str)
+        # evidence describes /repo only; a run against another tree (VERIF_REPO, dev-time
+        # mutant runs) leaves its record in the run directory
+        evdir = os.path.join(ROOT, "evidence") if not os.environ.get("VERIF_REPO") else rundir
+        json.dump(ev, open(os.path.join(evdir, prop + ".json"), "w"), indent=1, default=str)
 
     print("%s tier=%s seed=%d: %d evaluations in %d cases, %d distinct non-trivial, %d violation(s), %d known, %d inconclusive, %.1fs"
           % (prop, tier, a.seed, evals, sum(f["cases"] for f in fam.values()), len(sigs), new_v, sum(known_seen.values()), inconclusive, wall))
